@@ -54,6 +54,53 @@ func findCommitsToRemove(db objects.Store, rs ref.Store, pbarAdd func()) (commit
 	return
 }
 
+// childrenFirst orders commits so that each one comes before its parents
+func childrenFirst(db objects.Store, sums [][]byte) ([][]byte, error) {
+	parents := make(map[string][][]byte, len(sums))
+	for _, sum := range sums {
+		c, err := objects.GetCommit(db, sum)
+		if err != nil {
+			return nil, err
+		}
+		parents[string(sum)] = c.Parents
+	}
+	type frame struct {
+		sum  []byte
+		next int
+	}
+	// depth-first post-order lists parents first
+	ordered := make([][]byte, 0, len(sums))
+	visited := map[string]struct{}{}
+	for _, sum := range sums {
+		if _, ok := visited[string(sum)]; ok {
+			continue
+		}
+		visited[string(sum)] = struct{}{}
+		stack := []*frame{{sum: sum}}
+		for len(stack) > 0 {
+			fr := stack[len(stack)-1]
+			if ps := parents[string(fr.sum)]; fr.next < len(ps) {
+				p := ps[fr.next]
+				fr.next++
+				if _, ok := parents[string(p)]; !ok {
+					continue
+				}
+				if _, ok := visited[string(p)]; !ok {
+					visited[string(p)] = struct{}{}
+					stack = append(stack, &frame{sum: p})
+				}
+				continue
+			}
+			ordered = append(ordered, fr.sum)
+			stack = stack[:len(stack)-1]
+		}
+	}
+	for i, j := 0, len(ordered)-1; i < j; i, j = i+1, j-1 {
+		ordered[i], ordered[j] = ordered[j], ordered[i]
+	}
+	return ordered, nil
+}
+
 func pruneTables(db objects.Store, survivingCommits [][]byte, allBlockKeys, allBlockIdxKeys [][]byte, keepBlock, keepBlockIndex []bool) runProgressFunc {
 	return func(pbarAdd func()) (err error) {
 		tableHashes, err := objects.GetAllTableKeys(db)
@@ -194,7 +241,12 @@ func Prune(db objects.Store, rs ref.Store, opts *PruneOptions) (err error) {
 		return err
 	}
 
-	// remove orphaned commits
+	// remove orphaned commits, children before their parents, so that an interrupted
+	// prune never leaves a stored commit without one of its parents
+	commitsToRemove, err = childrenFirst(db, commitsToRemove)
+	if err != nil {
+		return err
+	}
 	return runWithPbar(opts.PruneCommitsPbar, func(pbarAdd func()) (err error) {
 		for _, sum := range commitsToRemove {
 			err = objects.DeleteCommit(db, sum)
